@@ -337,10 +337,12 @@ static int bytestream_bsend(struct xcm_socket *conn_s, const void *buf,
 	int rc = xcm_tp_socket_send(conn_s, buf + sent, left);
 
 	if (rc < 0) {
+	    /* bytes already accepted must be reported as such; a
+	       connection failure is sticky and is reported by the
+	       next call */
 	    if (errno != EAGAIN)
-		return -1;
+		return sent > 0 ? sent : -1;
 	    if (socket_wait(conn_s, XCM_SO_SENDABLE) < 0)
-		/* bytes already accepted must be reported as such */
 		return sent > 0 ? sent : -1;
 	} else
 	    sent += rc;
@@ -384,7 +386,11 @@ int xcm_send(struct xcm_socket *__restrict conn_s,
 	    int f_rc;
 	    while ((f_rc = socket_finish(conn_s)) < 0 && errno == EINTR)
 		;
-	    if (f_rc < 0)
+	    /* Bytes of a byte stream that have been accepted stay
+	       accepted; the (sticky) connection error is reported by
+	       the next call. */
+	    if (f_rc < 0 &&
+		!(xcm_tp_socket_is_bytestream(conn_s) && rc > 0))
 		return -1;
 	}
 
